@@ -38,6 +38,7 @@ def setup(ctx):
     ctx.require("monitor", "unsendable_bodies", 60)
     ctx.require("monitor", "l3_streams_compared", 8)
     ctx.require("monitor", "index_files_through_directory", 14)
+    ctx.require("monitor", "static_files_with_a_cut_off_last_character", 10)
     ctx.require("monitor", "stalled_reader_streams", 10)
     ctx.require("monitor", "at_limit_streams", 8)
     ctx.require("monitor", "l2_late_client_bytes_while_answering", 10)
@@ -382,6 +383,10 @@ def run_l3(ctx):
             "odd_bom_middle.gmi": "start\n\ufeffmiddle bom\n".encode("utf-8"),
             "odd_crlf_big.gmi": (b"0123456789abcdef\r\n" * 5000),
         }
+        # files whose LAST character is cut off (a truncated download, a partial write): not valid UTF-8 - whatever the
+        # server makes of them, it is the whole file or a refusal, never a success with the tail missing
+        odd.update({"cut_tail1.gmi": "caf\u00e9 men\u00fc\n".encode("utf-8") + b"\xc3", "cut_tail2.gmi": b"price: 5 " + "\u20ac".encode("utf-8")[:2], "cut_tail3.gmi": b"smile " + "\U0001f600".encode("utf-8")[:3],
+                    "cut_big.gmi": text_body(70000, rng).encode("utf-8") + b"\xe2\x82", "cut_only.gmi": b"\xc3"})
         for name, data in odd.items():
             with open(os.path.join(root, name), "wb") as f:
                 f.write(data)
@@ -421,6 +426,14 @@ def run_l3(ctx):
                             ctx.inconclusive_because(f"L3 fetch failed: {r['error']}")
                             continue
                         expected = b"20 text/gemini\r\n" + files[name]
+                        if name.startswith("cut_"):
+                            ctx.count("monitor", "static_files_with_a_cut_off_last_character")
+                            case["source"] = "static:cut-off-last-character"
+                            if not r["data"].startswith(b"2"):
+                                # refused (the pinned tree: 40 File encoding error): nothing was delivered altered
+                                ctx.count("outcome", f"cut-file-refused:{r['data'][:2]!r}")
+                                ctx.case(("L3", backend, "cut-file", r["data"][:2]), True, sample={"level": "L3", **case, "answer": r["data"][:40]})
+                                continue
                         compare(ctx, case, expected, r["data"], r["eof"], "L3")
                         ctx.case(("L3", backend, bucket(len(files[name])), "static", p), True, sample={"level": "L3", **case})
                 # a client that caches TLS sessions (most do): its second and third connection resume the first one's
